@@ -17,11 +17,31 @@ pub fn bytes_into_address(value: &[u8]) -> Result<pallas::ledger::addresses::Add
         .map_err(|_| Error::CoerceError(hex::encode(value), "Address".to_string()))
 }
 
+/// Converts a byte string into a fixed-size hash, refusing any other length (the plain `From`
+/// conversion panics on a length mismatch).
+pub fn bytes_into_hash<const SIZE: usize>(value: &[u8]) -> Result<primitives::Hash<SIZE>, Error> {
+    if value.len() != SIZE {
+        return Err(Error::CoerceError(
+            hex::encode(value),
+            format!("Hash of {SIZE} bytes"),
+        ));
+    }
+
+    Ok(primitives::Hash::from(value))
+}
+
+pub fn utxo_ref_into_input(value: &UtxoRef) -> Result<primitives::TransactionInput, Error> {
+    Ok(primitives::TransactionInput {
+        transaction_id: bytes_into_hash(&value.txid)?,
+        index: value.index as u64,
+    })
+}
+
 pub fn policy_into_address(
     policy: &[u8],
     network: Network,
 ) -> Result<pallas::ledger::addresses::Address, Error> {
-    let policy = primitives::Hash::from(policy);
+    let policy = bytes_into_hash(policy)?;
 
     let network = match network {
         primitives::NetworkId::Testnet => pallas::ledger::addresses::Network::Testnet,
@@ -192,7 +212,7 @@ pub fn address_into_keyhash(
 
 pub fn expr_into_address_keyhash(expr: &tir::Expression) -> Result<primitives::AddrKeyhash, Error> {
     match expr {
-        tir::Expression::Bytes(x) => Ok(primitives::AddrKeyhash::from(x.as_slice())),
+        tir::Expression::Bytes(x) => bytes_into_hash(x),
         tir::Expression::Address(x) => {
             let address = bytes_into_address(x)?;
             address_into_keyhash(&address)
@@ -217,8 +237,8 @@ pub fn expr_into_hash<const SIZE: usize>(
     ir: &tir::Expression,
 ) -> Result<primitives::Hash<SIZE>, Error> {
     match ir {
-        tir::Expression::Bytes(x) => Ok(primitives::Hash::from(x.as_slice())),
-        tir::Expression::Hash(x) => Ok(primitives::Hash::from(x.as_slice())),
+        tir::Expression::Bytes(x) => bytes_into_hash(x),
+        tir::Expression::Hash(x) => bytes_into_hash(x),
         _ => Err(Error::CoerceError(format!("{ir:?}"), "Hash".to_string())),
     }
 }
